@@ -131,7 +131,7 @@ func runC14(rc *RunCtx) {
 		rc.Cov.Sample(map[string]interface{}{"history_tail": e.history[max(0, len(e.history)-12):]})
 	}
 	// natural failures of the real keepers and late validation failures after the burn
-	for vi, variant := range []string{"ftf-paused", "module-blacklisted", "recipient-blacklisted", "allowance-exhausted", "send-side-paused", "max-body-131", "zero-messenger", "caller-31-bytes", "poor-depositor", "short-messenger", "long-messenger", "zero-amount-burn-message", "mint-to-module-account", "recipient-blocked-by-bank"} {
+	for vi, variant := range []string{"ftf-paused", "module-blacklisted", "recipient-blacklisted", "allowance-exhausted", "send-side-paused", "max-body-131", "zero-messenger", "caller-31-bytes", "poor-depositor", "short-messenger", "long-messenger", "zero-amount-burn-message", "mint-to-module-account", "recipient-blocked-by-bank", "caller-over-long"} {
 		if vi%rc.NShards != rc.Shard {
 			continue
 		}
@@ -176,6 +176,11 @@ func runC14(rc *RunCtx) {
 			case "caller-31-bytes":
 				d := pg.ValidDeposit(true, 0).(*ct.MsgDepositForBurnWithCaller)
 				d.DestinationCaller = Structured32(3)[:31]
+				m = d
+			case "caller-over-long": // 33, 40, 64, 96, 20 and 1 bytes: refused only when the message is assembled, after the burn
+				d := pg.ValidDeposit(true, 0).(*ct.MsgDepositForBurnWithCaller)
+				long := append(append(Structured32(3), Structured32(4)...), Structured32(5)...)
+				d.DestinationCaller = long[:[]int{33, 40, 64, 96, 20, 1}[k%6]]
 				m = d
 			case "poor-depositor":
 				d := pg.ValidDeposit(false, 0).(*ct.MsgDepositForBurn)
@@ -473,7 +478,7 @@ func init() {
 					miss = append(miss, fmt.Sprintf("fault kind %s hit %d times", kind, hit))
 				}
 			}
-			if len(c.Matrix["C14_natural"]) < 11 {
+			if len(c.Matrix["C14_natural"]) < 12 {
 				miss = append(miss, "natural / late failure variants missing")
 			}
 			return miss
